@@ -84,6 +84,9 @@ ALLOWED = {
 ALLOWED_FN = {
     ("evo.tools.settings.merge_dicts", "first"):
         "in-place by contract (returns its first argument)",
+    ("evo.tools.contextily_helper.add_api_token", "provider"):
+        "documented operation: 'provider to which the API token shall be "
+        "added' — the object explicitly being operated on",
 }
 # methods that must not change the object they are called on
 READONLY_METHODS = {
